@@ -5,13 +5,15 @@ import gen as G
 import codec
 
 MODEL_TARGETS = ["model/SingleObject.vo", "model/CanonicalForm.vo"]
-COQ_TARGETS = ["props/C18.vo", "proofs/ConstsTie.vo"]
-THEOREMS = [("C18", ["C18_enc", "C18_dec", "C18_mismatch", "C18_short", "C18_roundtrip", "C18_slice_reader"])]
-PROOF_FILES = ["proofs/SingleObjectProofs.v", "proofs/SingleObjectChunkProofs.v", "proofs/ReaderProofs.v", "props/C18.v"]
+COQ_TARGETS = ["props/C18.vo", "proofs/ConstsTie.vo", "proofs/SingleObjectSinkProofs.vo"]
+THEOREMS = [("C18", ["C18_enc", "C18_dec", "C18_mismatch", "C18_short", "C18_roundtrip", "C18_slice_reader"]),
+            ("SingleObjectSinkProofs", ["so_encode_sink_header_does_not_fit", "so_encode_sink_vec_header"])]
+PROOF_FILES = ["proofs/SingleObjectProofs.v", "proofs/SingleObjectChunkProofs.v", "proofs/ReaderProofs.v", "props/C18.v", "proofs/SingleObjectSinkProofs.v"]
 TRUSTED_BASE = [
     "Coq 8.16.1 kernel; no axioms (Print Assumptions: closed)",
     "hand-written model/SingleObject.v of single_object_encoding.rs over the models of the datum codec and of the fingerprint (C08), tied by the correspondence run",
-    "extraction (ExtrOcamlBasic) + ocaml/driver.ml; Rust harness",
+    "extraction (ExtrOcamlBasic) + ocaml/driver.ml; Rust harness (sinks of `sos`: Vec, a writer taking at most K bytes per write call, a fixed-size slice)",
+    "sinks: SingleObject.so_encode_sink = write_all marker, write_all fingerprint, datum on a writer with a byte budget (Ser.write); that a writer accepting only a prefix per `write` call receives the same bytes through write_all is std's contract",
     "the schemas whose fingerprint ends in 00 bytes are selected by the MODEL's fingerprint (CanonicalForm.fingerprint through `fp`); the search only filters candidates, the expected outcome (error) is that of C18_short / the model",
 ]
 ASSUMPTIONS = [
@@ -59,6 +61,17 @@ def run(ctx):
     enc_lines = ["sos %s %s" % (s["schema"], s["present"]) for s in sp]
     ei, em = codec.both(enc_lines)
     fps = C.run_parallel(C.AVRODRIVE, ["fp " + s["schema"] for s in sp])
+    # the same messages through other sinks: a writer whose `write` takes at most K bytes per call (short writes: K below
+    # and above the header's 10 bytes), a fixed-size slice exactly as large as the message (same bytes), and slices that are
+    # too small -- inside the marker, inside the fingerprint, inside the datum -- which must give Err, never a truncated Ok
+    sink_lines, sink_meta = [], []
+    for s in sp:
+        full = 10 + len(C.unhex(s["canon"]))
+        for sink in ["(sink short %d)" % k for k in sorted(set([1, rng.choice([2, 3, 5, 8, 9]), rng.choice([10, 11, 16])]))] + ["(sink fixed %d)" % full]:
+            sink_lines.append("sos %s %s %s" % (s["schema"], s["present"], sink)); sink_meta.append((s, "same"))
+        for x in sorted(set(v for v in (0, 1, 2, rng.randrange(2, 10), 9, 10, full - 1, rng.randrange(0, full)) if 0 <= v < full)):
+            sink_lines.append("sos %s %s (sink fixed %d)" % (s["schema"], s["present"], x)); sink_meta.append((s, "too-small"))
+    ki, km = codec.both(sink_lines)
     violations, diffs, samples, distinct = [], [], [], set()
     from collections import Counter
     dist = Counter()
@@ -79,6 +92,21 @@ def run(ctx):
             violations.append({"impl_case": line, "what": "message is not C3 01 + fingerprint + datum encoding", "impl": ri[:300]})
         by_pcf.setdefault(pf[2], set()).add(pf[1])
         msgs.append((s, msg, fp, pf[2]))
+    vec_msg = {id(s): C.parse_sx(ri)[0] for s, ri in zip(sp, ei)}
+    for line, ri, rm, (s, kind) in zip(sink_lines, ki, km, sink_meta):
+        distinct.add(line)
+        dist["sink-" + kind] += 1
+        if not C.same_outcome(ri, rm) or (ri.startswith("(ok") and ri != rm):
+            diffs.append(codec.diff_entry(line, ri, rm))
+        if ri.startswith("(panic") or ri.startswith("(crash"):
+            violations.append({"impl_case": line, "what": "panic in single-object serialization", "impl": ri[:300]})
+        elif kind == "same":
+            base = vec_msg[id(s)]
+            if base[0] == "ok" and C.show_sx(C.parse_sx(ri)[0]) != C.show_sx(base):
+                violations.append({"impl_case": line, "what": "the message that reached the sink is not C3 01 + fingerprint + datum (it differs from to_single_object_vec's)",
+                                   "impl": ri[:300], "expected": C.show_sx(base)[:300]})
+        elif ri.startswith("(ok"):
+            violations.append({"impl_case": line, "what": "Ok although the output slice is smaller than the message (%d bytes)" % (10 + len(C.unhex(s["canon"]))), "impl": ri[:300]})
     # distinct canonical forms must have distinct fingerprints (tested, not provable: 64-bit checksum)
     seen = {}
     for pcf, fset in by_pcf.items():
@@ -103,14 +131,48 @@ def run(ctx):
             j = rng.randrange(10)
             g = bytearray(msg); g[j] ^= rng.choice([1, 0x80, 0xFF, 0x10])
             dec_lines.append("sod %s any %s %s" % (s["schema"], C.hx(bytes(g)), mode())); dec_meta.append(("corrupt-header-byte-%d" % j, "err"))
-        # a message written under another schema (different canonical form)
-        o = msgs[rng.randrange(len(msgs))]
-        if o[3] != pcf:
-            dec_lines.append("sod %s any %s %s" % (s["schema"], C.hx(o[1]), mode())); dec_meta.append(("other-schema", "err"))
+        # several header bytes corrupted at once: the same mask on two / on all fingerprint bytes, two fingerprint bytes
+        # exchanged, the fingerprint reversed or rotated (a comparison through a fold -- xor, sum -- of the differences,
+        # of a subset of the bytes, or regardless of their order would let these through)
+        multi = []
+        j, k2 = rng.sample(range(2, 10), 2)
+        mask = rng.choice([1, 0x80, 0xFF, 0x10, rng.randrange(1, 256)])
+        g = bytearray(msg); g[j] ^= mask; g[k2] ^= mask; multi.append(("same-mask-two-bytes", g))
+        g = bytearray(msg)
+        for x in range(2, 10):
+            g[x] ^= mask
+        multi.append(("same-mask-all-bytes", g))
+        g = bytearray(msg); g[j], g[k2] = g[k2], g[j]; multi.append(("two-exchanged", g))
+        g = bytearray(msg); g[2:10] = bytes(reversed(msg[2:10])); multi.append(("fingerprint-reversed", g))
+        g = bytearray(msg); g[2:10] = msg[3:10] + msg[2:3]; multi.append(("fingerprint-rotated", g))
+        g = bytearray(msg); g[j] = (g[j] + 1) % 256; g[k2] = (g[k2] - 1) % 256; multi.append(("sum-preserving", g))
+        g = bytearray(msg); g[0], g[1] = g[1], g[0]; multi.append(("marker-exchanged", g))
+        for what, g in multi:
+            if bytes(g[:10]) != msg[:10]:
+                dec_lines.append("sod %s any %s %s" % (s["schema"], C.hx(bytes(g)), mode())); dec_meta.append(("corrupt-header-" + what, "err"))
+        # messages written under other schemas (different canonical forms)
+        for o in rng.sample(msgs, min(len(msgs), 10)):
+            if o[3] != pcf:
+                dec_lines.append("sod %s any %s %s" % (s["schema"], C.hx(o[1]), mode())); dec_meta.append(("other-schema", "err"))
+    # truncated headers whose missing bytes are 0x00 (or 0xFF) in the schema's fingerprint, with a zero-length datum: a reader
+    # that pads a short header instead of failing would accept them. Schemas are searched for such fingerprints.
+    cand = ["(schema (node (record %s) none))" % C.hx("Empty%d" % i) for i in range(700 if ctx["tier"] == "quick" else 6000)]
+    cand += ["(schema (node (record %s (%s 1)) none) (node null none))" % (C.hx("ns.E%d" % i), C.hx("f")) for i in range(300 if ctx["tier"] == "quick" else 3000)]
+    for sch, rf in zip(cand, C.run_parallel(C.AVRODRIVE, ["fp " + c for c in cand])):
+        pf = C.parse_sx(rf)[0]
+        if pf[0] != "ok":
+            continue
+        fp = C.unhex(pf[1])
+        t = len(fp.rstrip(b"\x00")) if fp[-1] == 0 else (len(fp.rstrip(b"\xff")) if fp[-1] == 0xFF else 8)
+        if t < 8:
+            msg = b"\xc3\x01" + fp
+            for cut in range(2 + t, 10):
+                for md in ("slice", "(chunks 1)", "(chunks 16)", "(chunks %d)" % max(1, cut - 1)):
+                    dec_lines.append("sod %s any %s %s" % (sch, C.hx(msg[:cut]), md)); dec_meta.append(("short-header-padding", "err"))
     di, dm = codec.both(dec_lines)
     for line, ri, rm, (kind, want) in zip(dec_lines, di, dm, dec_meta):
         distinct.add(line)
-        dist[kind.split("-byte")[0]] += 1
+        dist[kind.split("-byte")[0] if kind.startswith("corrupt-header-byte") else kind] += 1
         if not C.same_outcome(ri, rm):
             diffs.append(codec.diff_entry(line, ri, rm))
         if want == "err":
@@ -119,11 +181,11 @@ def run(ctx):
         elif G.erase_borrow_text(ri) != want:
             violations.append({"impl_case": line, "what": "a valid single-object message did not decode to the value", "impl": ri[:300], "expected": want[:300]})
     samples = [{"message": C.hx(m[1])[:80], "fingerprint": C.hx(m[2])} for m in msgs[:4]]
-    return {"evaluations": len(enc_lines) + len(dec_lines), "distinct_nontrivial": len(distinct),
-            "rule": "schemas x values: message = C3 01 + fingerprint + extracted specification encoding; decoded back (dynamic and typed target) "
-                    "from a slice and from chunked readers; every header truncation length 0..9, single-byte header corruptions; schemas with "
-                    "zero-byte datums whose (model-computed) fingerprint ends in 00 bytes, found by search: every header length 0..9 x {slice, "
-                    "1 / 3 / 9 / 4+5+1 / 64 bytes per read} must be rejected (the missing bytes are zeros); messages "
+    return {"evaluations": len(enc_lines) + len(dec_lines) + len(sink_lines), "distinct_nontrivial": len(distinct),
+            "rule": "schemas x values: message = C3 01 + fingerprint + extracted specification encoding, into a Vec, through writers taking at most "
+                    "K bytes per write call and into exact-size slices (same message), into too-small slices (Err); decoded back (dynamic and typed target) "
+                    "from a slice and from chunked readers; every header truncation length 0..9 (incl. schemas searched for fingerprints ending in 00 / FF, cut "
+                    "inside that tail; and schemas with zero-byte datums whose model-computed fingerprint ends in 00 bytes: every header length 0..9 x {slice, 1 / 3 / 9 / 4+5+1 / 64 bytes per read} must be rejected), single-byte header corruptions, several bytes at once (same mask, exchanged, reversed, rotated, sum-preserving), messages "
                     "written under a schema with a different canonical form must be rejected; distinct canonical forms must have distinct "
                     "fingerprints in the generated set; model vs crate",
             "samples": samples, "violations": violations, "model_diffs": diffs, "distribution": dict(dist)}
